@@ -33,6 +33,10 @@ type Drop struct {
 	Nil  bool     `json:"nil,omitempty"`
 	All  bool     `json:"all,omitempty"`
 	Docs []uint32 `json:"docs,omitempty"`
+	// Keep > 0: of a segment with more than Keep documents exactly Keep survive
+	// (the first n-Keep documents after the first are dropped) - survivor counts
+	// that sit exactly on a chunk boundary
+	Keep int `json:"keep,omitempty"`
 }
 
 type MergeDef struct {
@@ -241,6 +245,12 @@ func MakeDrops(d *Drop, n int) (*roaring.Bitmap, []bool) {
 		for _, x := range d.Docs {
 			bm.Add(x % uint32(n))
 			dropped[x%uint32(n)] = true
+		}
+		if d.Keep > 0 && n > d.Keep && !d.All && len(d.Docs) == 0 {
+			for i := 1; i <= n-d.Keep; i++ {
+				bm.Add(uint32(i))
+				dropped[i] = true
+			}
 		}
 	}
 	return bm, dropped
